@@ -1,7 +1,8 @@
 /-
 X03 — the declarative side, written independently of the model's algorithms (core Lean only; linked into the driver).
 
-  * `safeHead`, `safeMid`, `CbGrammar`   the callback grammar the JSONP check is meant to enforce, character by character
+  * `safeHead`, `safeMid`, `safeLast`, `CbGrammar`   the callback grammar the JSONP check enforces, character by character
+  * `CbGrammarOld`, `oldPattern`         the grammar / generated pattern before fix a7b5ff8 (regression facts)
   * `loads`                              a JSON reader (RFC 8259 values without fractions/exponents; white space allowed
                                          after `[ { , :`) — C19's string reader `readJsonString` is reused
   * `Nearest`                            "the adapter of the nearest specification in the resolution order"
@@ -33,14 +34,32 @@ def safeHead (c : Char) : Bool := letterI c || c.toNat == 36 || c.toNat == 95
 def safeMid (c : Char) : Bool :=
   safeHead c || (48 ≤ c.toNat && c.toNat ≤ 57) || c.toNat == 46 || c.toNat == 91 || c.toNat == 93
 
-/-- The language of `^[$a-z_][$0-9a-z_\.\[\]]+[^.]$` under IGNORECASE, written out: head, one or more middle
-characters, one character that is not `.`, and (because `$` also matches before a final line feed) optionally `\n`. -/
+/-- last character: a letter, `$`, `_`, a digit or `]` (the middle class without `.` and `[`) -/
+def safeLast (c : Char) : Bool :=
+  safeHead c || (48 ≤ c.toNat && c.toNat ≤ 57) || c.toNat == 93
+
+/-- The language of `^[$a-z_][$0-9a-z_\.\[\]]+[$0-9a-z_\]]\Z` under IGNORECASE (fix a7b5ff8), written out: head, one or
+more middle characters, one last character; nothing after it. -/
 def CbGrammar (cb : Text) : Prop :=
+  ∃ h mid l, cb = h :: (mid ++ [l]) ∧ safeHead h = true ∧ mid ≠ [] ∧ (∀ c ∈ mid, safeMid c = true) ∧ safeLast l = true
+
+/-- The language of the pattern BEFORE a7b5ff8, `^[$a-z_][$0-9a-z_\.\[\]]+[^.]$`: the last character is anything but `.`,
+and (because `$` also matches before a final line feed) a `\n` may follow. -/
+def CbGrammarOld (cb : Text) : Prop :=
   ∃ h mid l tail, cb = h :: (mid ++ l :: tail) ∧ safeHead h = true ∧ mid ≠ [] ∧ (∀ c ∈ mid, safeMid c = true) ∧
     l ≠ '.' ∧ (tail = [] ∨ tail = ['\n'])
 
 /-- what the property wants: every character is one of the identifier / member / index characters -/
 def AllSafe (cb : Text) : Prop := ∀ c ∈ cb, safeMid c = true
+
+open Pyr.Rx in
+/-- what `extract/x03.py` emitted for the source BEFORE a7b5ff8 (kept for the regression facts of Props/X03) -/
+def oldPattern : CbPattern :=
+  { startAnchor := true, endAnchor := .dollar,
+    body := .seq (.set false [.ch '$', .range 'A' 'Z', .ch '_', .range 'a' 'z', .range '\u0130' '\u0131', .ch '\u017f', .ch '\u212a'])
+      (.seq (.rep true 1 none (.set false [.ch '$', .ch '.', .range '0' '9', .range 'A' '[', .ch ']', .ch '_', .range 'a' 'z',
+        .range '\u0130' '\u0131', .ch '\u017f', .ch '\u212a'])) (.set true [.ch '.'])),
+    method := .match, understood := true }
 
 /-! ## a JSON reader -/
 
